@@ -822,7 +822,7 @@ def bridged_chains(draw, dist=(2000, 2499)):
     return ents, {"direction": d, "length_mA": length, "offset_mA": off}
 
 
-def with_alternate_location(entries, pick, renumber_from=None, add=True):
+def with_alternate_location(entries, pick, renumber_from=None, add=True, whole=False):
     """Copy of ``entries`` in which one protein residue (the ``pick``-th with side-chain atoms) carries its side chain
     twice, as alternate locations A and B (B displaced by a few hundredths of an Angstrom), so that the input has two
     conformations.  With ``renumber_from`` every chain is first renumbered consecutively from that number, which makes
@@ -842,6 +842,8 @@ def with_alternate_location(entries, pick, renumber_from=None, add=True):
         return ents, False
     ats = cands[pick % len(cands)]
     side = [a for a in ats if a.aname not in pdbio.BACKBONE and a.aname not in pdbio.TERMINAL_O]
+    if whole:
+        side = list(ats)            # backbone and terminal oxygen as well
     taken = {a.xyz for a in pdbio.atoms_of(ents)}
     copies = []
     for a in side:
